@@ -14,6 +14,7 @@ import (
 	"fmt"
 	"go/ast"
 	"go/types"
+	"strings"
 )
 
 func (w *World) frames() *frameChecker {
@@ -70,6 +71,16 @@ func (vc *VC) havocContents(a ast.Expr, st *State) {
 		return
 	}
 	si := vc.ss.info[old.Sort]
+	if si != nil && si.Kind == "struct" {
+		// a struct handed over by value: the callee cannot change the caller's
+		// copy, but it can write through the maps, slices and pointers it holds
+		if nv, changed := vc.havocRefFields(old, st, 0); changed {
+			if _, isSl := a.(*ast.SliceExpr); !isSl {
+				vc.store(a, st, nv)
+			}
+		}
+		return
+	}
 	if si == nil || (si.Kind != "map" && si.Kind != "slice") {
 		return
 	}
@@ -85,4 +96,55 @@ func (vc *VC) havocContents(a ast.Expr, st *State) {
 		return
 	}
 	vc.store(a, st, nv)
+}
+
+// havocRefFields rebuilds a struct value with the contents of its map and
+// slice fields and the pointees of its pointer fields replaced by unknown
+// ones (nil-ness and lengths kept), two levels of nested structs deep.
+func (vc *VC) havocRefFields(old Term, st *State, depth int) (Term, bool) {
+	si := vc.ss.info[old.Sort]
+	if si == nil || si.Kind != "struct" || depth > 2 || len(si.Fields) == 0 {
+		return old, false
+	}
+	changed := false
+	var parts []string
+	for _, f := range si.Fields {
+		cur := Term{fmt.Sprintf("(%s.%s %s)", old.Sort, f.Name, old.S), f.Sort, f.T}
+		fi := vc.ss.info[f.Sort]
+		switch {
+		case fi != nil && (fi.Kind == "map" || fi.Kind == "slice"):
+			nv := vc.freshOfSort("hvf", f.Sort, f.T)
+			if f.T != nil {
+				if fact := vc.rangeFacts(nv, f.T, 0); fact.S != "true" {
+					vc.assume(tBool(true), fact)
+				}
+			}
+			S := string(f.Sort)
+			if fi.Kind == "map" {
+				vc.assume(st.pc, Term{fmt.Sprintf("(= (isnil.%s %s) (isnil.%s %s))", S, nv.S, S, cur.S), SBool, nil})
+			} else {
+				vc.assume(st.pc, Term{fmt.Sprintf("(and (= (isnil.%s %s) (isnil.%s %s)) (= (len.%s %s) (len.%s %s)))", S, nv.S, S, cur.S, S, nv.S, S, cur.S), SBool, nil})
+			}
+			parts = append(parts, nv.S)
+			changed = true
+		case fi != nil && fi.Kind == "ptr" && f.T != nil:
+			if p, ok := vc.underlying(f.T).(*types.Pointer); ok {
+				inner := vc.unknown("hvf", p.Elem())
+				parts = append(parts, fmt.Sprintf("(ite ((_ is ref.%s) %s) (ref.%s %s) %s)", f.Sort, cur.S, f.Sort, inner.S, cur.S))
+				changed = true
+			} else {
+				parts = append(parts, cur.S)
+			}
+		case fi != nil && fi.Kind == "struct":
+			nv, ch := vc.havocRefFields(cur, st, depth+1)
+			parts = append(parts, nv.S)
+			changed = changed || ch
+		default:
+			parts = append(parts, cur.S)
+		}
+	}
+	if !changed {
+		return old, false
+	}
+	return Term{fmt.Sprintf("(mk.%s %s)", old.Sort, strings.Join(parts, " ")), old.Sort, old.T}, true
 }
